@@ -452,4 +452,172 @@ theorem sim_init (C : Codec) (rq : RQ) (ds : Dataset) (q : Q) (clean : Bool) (li
     · simpa [Q.items] using h.ids
     · simpa [Queue.step, Q.init] using Queue.step_inv q (.init false limit) trivial h.inv
 
+/-! ### `Replace` -/
+
+theorem replaceFirst_split {p : Elem → Bool} {e : Elem} (l : List Elem) :
+    (∃ pre x post, l = pre ++ x :: post ∧ Queue.replaceFirst p e l = some (pre ++ { e with tag := x.tag } :: post) ∧
+        p x = true ∧ ∀ y ∈ pre, p y = false) ∨
+    (Queue.replaceFirst p e l = none ∧ ∀ y ∈ l, p y = false) := by
+  induction l with
+  | nil => right; simp [Queue.replaceFirst]
+  | cons y l ih =>
+    by_cases hy : p y = true
+    · left
+      exact ⟨[], y, l, rfl, by simp [Queue.replaceFirst, hy], hy, by simp⟩
+    · have hy' : p y = false := by simpa using hy
+      rcases ih with ⟨pre, x, post, h1, h2, h3, h4⟩ | ⟨h1, h2⟩
+      · left
+        refine ⟨y :: pre, x, post, by simp [h1], by simp [Queue.replaceFirst, hy', h2], h3, ?_⟩
+        intro z hz
+        simp only [List.mem_cons] at hz
+        rcases hz with hz | hz
+        · rw [hz]; exact hy'
+        · exact h4 z hz
+      · right
+        refine ⟨by simp [Queue.replaceFirst, hy', h1], ?_⟩
+        intro z hz
+        simp only [List.mem_cons] at hz
+        rcases hz with hz | hz
+        · rw [hz]; exact hy'
+        · exact h2 z hz
+
+theorem findId_none (C : Codec) (id : Nat) (l : List Elem) (k : Nat) (h : ∀ y ∈ l, (y.id == id) = false) :
+    findId (ops C) id (l.map C.enc) k = some none := by
+  induction l generalizing k with
+  | nil => rfl
+  | cons y l ih =>
+    have hd : (ops C).dec (C.enc y) = some y := C.rt y
+    have hy : ¬ ((ops C).id y = id) := by
+      have := h y (by simp)
+      simpa [ops] using this
+    simp only [List.map_cons, findId, hd, hy, if_false]
+    exact ih _ (fun z hz => h z (by simp [hz]))
+
+theorem findId_split (C : Codec) (id : Nat) (pre : List Elem) (x : Elem) (post : List Elem) (k : Nat)
+    (hx : (x.id == id) = true) (hpre : ∀ y ∈ pre, (y.id == id) = false) :
+    findId (ops C) id ((pre ++ x :: post).map C.enc) k = some (some (k + pre.length)) := by
+  induction pre generalizing k with
+  | nil =>
+    have hd : (ops C).dec (C.enc x) = some x := C.rt x
+    have hxi : (ops C).id x = id := by simpa [ops] using hx
+    simp [findId, hd, hxi]
+  | cons y pre ih =>
+    have hd : (ops C).dec (C.enc y) = some y := C.rt y
+    have hy : ¬ ((ops C).id y = id) := by
+      have := hpre y (by simp)
+      simpa [ops] using this
+    simp only [List.cons_append, List.map_cons, findId, hd, hy, if_false, List.length_cons]
+    rw [ih (k + 1) (fun z hz => hpre z (by simp [hz]))]
+    congr 2
+    omega
+
+theorem find_split (id : Nat) (pre : List Elem) (x : Elem) (post : List Elem)
+    (hpre : ∀ y ∈ pre, (y.id == id) = false) :
+    (pre ++ x :: post).find? (fun y => y.id == id) = if (x.id == id) = true then some x else post.find? (fun y => y.id == id) := by
+  induction pre with
+  | nil =>
+    by_cases hx : x.id = id
+    · simp [List.find?_cons, hx]
+    · simp [List.find?_cons, hx]
+  | cons y pre ih =>
+    have := hpre y (by simp)
+    simp only [List.cons_append, List.find?_cons, this]
+    exact ih (fun z hz => hpre z (by simp [hz]))
+
+theorem set_len_append {α : Type} (pre : List α) (x y : α) (post : List α) : (pre ++ x :: post).set pre.length y = pre ++ y :: post := by
+  induction pre with
+  | nil => rfl
+  | cons z pre ih => simp [ih]
+
+theorem find_swap (p : Elem → Bool) (pre post : List Elem) (a b : Elem) (ha : p a = false) (hb : p b = false) :
+    (pre ++ a :: post).find? p = (pre ++ b :: post).find? p := by
+  simp [List.find?_append, List.find?_cons, ha, hb]
+
+theorem tags_swap (pre post : List Elem) (a b : Elem) (h : b.tag = a.tag) :
+    Queue.tags (pre ++ b :: post) = Queue.tags (pre ++ a :: post) := by
+  simp [Queue.tags, h]
+
+theorem nzIds_swap (pre post : List Elem) (a b : Elem) (h : b.id = a.id) : nzIds (pre ++ b :: post) = nzIds (pre ++ a :: post) := by
+  simp only [nzIds, List.filter_append, List.filter_cons, h, List.map_append]
+  split <;> simp [h]
+
+/-- `Replace(elem)`: the PUBREL overwrites the slot of the first entry in front of the cursor carrying its packet id
+    (the ghost tag of the slot stays with it, as in the memory model) -/
+theorem sim_replace (C : Codec) (rq : RQ) (ds : Dataset) (q : Q) (e : Elem) (h : Sim C rq ds q) :
+    let slotTag := ((q.done.find? (fun x => x.id == e.id)).map (·.tag)).getD e.tag
+    let e' : Elem := { e with tag := slotTag }
+    ((replace (ops C) rq ds e').status = (if (q.replace e).2 then Status.replaced else Status.notfound)) ∧
+      Sim C (replace (ops C) rq ds e').q (applyAll ds (replace (ops C) rq ds e').cmds) (q.replace e).1 := by
+  intro slotTag e'
+  have hide' : e'.id = e.id := rfl
+  rcases replaceFirst_split (p := fun x => x.id == e.id) (e := e) q.done with ⟨pre, x, post, h1, h2, h3, h4⟩ | ⟨h1, h2⟩
+  · -- found
+    have hxid : x.id = e.id := by simpa using h3
+    have hfind : q.done.find? (fun y => y.id == e.id) = some x := by
+      rw [h1, find_split e.id pre x post h4]
+      simp [h3]
+    have he' : e' = { e with tag := x.tag } := by simp [e', slotTag, hfind]
+    have hcur : rq.cur ≠ 0 := by
+      rw [h.cur, h1]; simp
+    have hpos : 0 < rq.cur := Nat.pos_of_ne_zero hcur
+    have hl := h.list
+    have htake : lrange (q.items.map C.enc) 0 ((rq.cur : Int) - 1) = q.done.map C.enc := by
+      rw [lrange_prefix _ _ hpos, h.cur, ← List.map_take]
+      simp [Q.items]
+    have hfi : findId (ops C) ((ops C).id e') (q.done.map C.enc) 0 = some (some pre.length) := by
+      have := findId_split C e.id pre x post 0 h3 h4
+      rw [← h1] at this
+      simpa [ops, hide'] using this
+    simp only [replace, hcur, if_false, hl, htake, hfi, Q.replace, h2]
+    refine ⟨rfl, ?_⟩
+    obtain ⟨l1, l2⟩ := listAt_applyAll_q [Cmd.lrange rq.key 0 ((rq.cur : Int) - 1), Cmd.lset rq.key (pre.length : Int) ((ops C).enc e')]
+      ds rq.key _ (by simp [QCmd]) h.nodup h.list
+    simp only [List.foldl_cons, List.foldl_nil, lstep, Int.toNat_natCast] at l1
+    have hitems : q.items = pre ++ x :: (post ++ q.rest) := by simp [Q.items, h1]
+    have hset : (q.items.map C.enc).set pre.length (C.enc e') = (pre ++ e' :: (post ++ q.rest)).map C.enc := by
+      rw [set_map_enc, hitems, set_len_append]
+    have hnew : ({ q with done := pre ++ { e with tag := x.tag } :: post } : Q).items = pre ++ e' :: (post ++ q.rest) := by
+      simp [Q.items, he']
+    have hetag : e'.tag = x.tag := by rw [he']
+    have heid : e'.id = x.id := by rw [hide', hxid]
+    refine ⟨l2, ?_, ?_, ?_, ?_, h.drained, h.closed, h.max, h.ie, h.limit, ?_, ?_, ?_⟩
+    · rw [hnew]; simpa [ops, hset] using l1
+    · rw [hnew, h.len, hitems]; simp
+    · rw [h.cur, h1]; simp
+    · intro id
+      rw [cacheGet_put, h.cache id]
+      show _ = (List.find? (fun x => x.id == id) (pre ++ { e with tag := x.tag } :: post)).map C.enc
+      rw [← he']
+      by_cases hid : id = (ops C).id e'
+      · have hid' : id = e.id := hid
+        subst hid'
+        rw [find_split e.id pre e' post h4]
+        simp [ops, hide']
+      · have hid' : id ≠ e.id := hid
+        simp only [hid, if_false]
+        rw [h1]
+        have hxa : (x.id == id) = false := by simp [hxid, Ne.symm hid']
+        have hea : (e'.id == id) = false := by simp [hide', Ne.symm hid']
+        rw [find_swap (fun y => y.id == id) pre post x e' hxa hea]
+    · rw [hnew, tags_swap pre (post ++ q.rest) x e' hetag, ← hitems]; exact h.tags
+    · rw [hnew, nzIds_swap pre (post ++ q.rest) x e' heid, ← hitems]; exact h.ids
+    · have := Queue.step_inv q (.replace e) trivial h.inv
+      simpa [Queue.step, Q.replace, h2] using this
+  · -- no entry in front of the cursor carries the id
+    simp only [Q.replace, h1]
+    by_cases hcur : rq.cur = 0
+    · simp only [replace, hcur, if_true]
+      exact ⟨rfl, h⟩
+    · have hpos : 0 < rq.cur := Nat.pos_of_ne_zero hcur
+      have htake : lrange (q.items.map C.enc) 0 ((rq.cur : Int) - 1) = q.done.map C.enc := by
+        rw [lrange_prefix _ _ hpos, h.cur, ← List.map_take]
+        simp [Q.items]
+      have hfi : findId (ops C) ((ops C).id e') (q.done.map C.enc) 0 = some none :=
+        findId_none C _ q.done 0 (by simpa [ops, hide'] using h2)
+      simp only [replace, hcur, if_false, h.list, htake, hfi]
+      refine ⟨rfl, ?_⟩
+      obtain ⟨l1, l2⟩ := listAt_applyAll_q [Cmd.lrange rq.key 0 ((rq.cur : Int) - 1)] ds rq.key _ (by simp [QCmd]) h.nodup h.list
+      simp only [List.foldl_cons, List.foldl_nil, lstep] at l1
+      exact ⟨l2, l1, h.len, h.cur, h.cache, h.drained, h.closed, h.max, h.ie, h.limit, h.tags, h.ids, h.inv⟩
+
 end GmqttVerif.RedisQueue
